@@ -560,3 +560,69 @@ def s9_command_table(ctx):
     classes = {c for c, d, rb in ret_classes(b, 0, lambda e: e.kind == "unwind" or e.dst in site_bbs)}
     r.add(f, "no command is produced without passing a dispatch site", not [c for c in classes if c == "ok"], short_span(b.span), "return classes avoiding the dispatch sites: %s" % sorted(classes))
     return r
+
+
+# ---------------------------------------------------------------------------------------------
+# S10: the completeness check and the parser consume a line / an integer with the same readers
+
+
+def s10_check_parse_readers(ctx):
+    r = RuleResult("S10", "per tag byte, Frame::check and Frame::parse advance over lines and integers with the same reader helpers (get_line for + and -, get_integer for : and for the $ and * headers): the length check accepts is the length parse consumes for those parts", floor=5)
+    prog = ctx.prog
+    pb = cb = None
+    for cand in ("net::frame::Frame::parse_nested", "net::frame::Frame::parse"):
+        c = prog.find(cand)
+        if c and calls_in(c, "net::frame::get_byte"):
+            pb = c[0]
+            break
+    for cand in ("net::frame::Frame::check_nested", "net::frame::Frame::check"):
+        c = prog.find(cand)
+        if c and calls_in(c, "net::frame::get_byte"):
+            cb = c[0]
+            break
+    if pb is None or cb is None:
+        r.unrec("net::frame::Frame", "parse / check bodies", "src/net/frame.rs", "not found")
+        return r
+
+    def arms(b):
+        for bb in sorted(b.live_blocks()):
+            info = b.switch_info(bb)
+            if info and info["kind"] == "int" and origin_mentions(info["on"], lambda x: x[0] == "call" and x[1] and x[1].endswith("get_byte")):
+                rets = {x for x in b.live_blocks() if b.term(x)["k"] == "return"}
+                dsts = {e.dst: info["arms"].get(e.dst, []) for e in b.succ[bb]}
+                out = {}
+                for dst, labs in dsts.items():
+                    if not labs or labs == ["otherwise"]:
+                        continue
+                    others = [d for d in dsts if d != dst]
+                    ex = _exclusive(b, dst, others, rets)
+                    called = set()
+                    for x in ex:
+                        t = b.term(x)
+                        if t["k"] == "call":
+                            cbody = prog.callee_body(t)
+                            if cbody is not None and cbody.name.startswith("net::frame::") and cbody.path not in (b.path,):
+                                called.add(cbody.name.split("::")[-1])
+                    for lab in labs:
+                        out[chr(int(lab))] = called
+                return bb, out
+        return None, {}
+
+    pbb, pa = arms(pb)
+    cbb, ca = arms(cb)
+    if pbb is None or cbb is None:
+        r.unrec("net::frame::Frame", "tag switches", "src/net/frame.rs", "not found")
+        return r
+    LINE = {"get_line", "get_integer"}
+    want = {"+": {"get_line"}, "-": {"get_line"}, ":": {"get_integer"}}
+    for tag in sorted(set(pa) | set(ca)):
+        p_r = {x for x in pa.get(tag, set()) if x not in ("peek_byte", "skip", "get_byte", "ascii_to_i64")} - {pb.name.split("::")[-1], "parse_nested", "parse"}
+        c_r = {x for x in ca.get(tag, set()) if x not in ("peek_byte", "skip", "get_byte", "ascii_to_i64")} - {cb.name.split("::")[-1], "check_nested", "check"}
+        if tag in want:
+            good = p_r == c_r == want[tag]
+            r.add("net::frame::Frame", "tag %r: check and parse both read with %s" % (tag, sorted(want[tag])), good, where(cb, cbb), "" if good else "check uses %s, parse uses %s: the two can disagree on where the line ends" % (sorted(c_r), sorted(p_r)))
+        else:
+            # $ and *: the header integer is read by get_integer in both; parse may additionally use get_line for the null literal
+            good = "get_integer" in p_r and "get_integer" in c_r and (c_r - LINE) == set() and (p_r - LINE) == set()
+            r.add("net::frame::Frame", "tag %r: header length read by get_integer in both" % tag, good, where(cb, cbb), "" if good else "check uses %s, parse uses %s" % (sorted(c_r), sorted(p_r)))
+    return r
